@@ -21,10 +21,23 @@ pub const WRONG_TYPE_CLIENT: u32 = 9000;
 pub fn do_send(trace: &Arc<Trace>, actor: &ActorRef<PMsg>, client: u32, seq: u64, script: Script, api: u64) -> i64 {
     let w = Work::new(trace, client, seq, script);
     trace.log(Ev::Call { client, op: "send", arg: seq });
-    let r = match api % 3 {
+    let r = match api % 4 {
         0 => actor.send_message(PMsg::Work(w)),
         1 => actor.cast(PMsg::Work(w)),
-        _ => actor.get_cell().send_message::<PMsg>(PMsg::Work(w)),
+        2 => actor.get_cell().send_message::<PMsg>(PMsg::Work(w)),
+        _ => {
+            // call: the request is enqueued by the first poll of the future; the reply is of no interest here
+            let a = actor.clone();
+            let mut m = crate::th::Manual::new(async move { a.call(move |reply| PMsg::Call(w, reply), None).await });
+            m.poll();
+            match m.done.take() {
+                None | Some(Ok(_)) => Ok(()),
+                Some(Err(MessagingErr::SendErr(PMsg::Call(w, _)))) => Err(MessagingErr::SendErr(PMsg::Work(w))),
+                Some(Err(MessagingErr::SendErr(other))) => Err(MessagingErr::SendErr(other)),
+                Some(Err(MessagingErr::ChannelClosed)) => Err(MessagingErr::ChannelClosed),
+                Some(Err(MessagingErr::InvalidActorType)) => Err(MessagingErr::InvalidActorType),
+            }
+        }
     };
     let res = match r {
         Ok(()) => 1,
@@ -281,21 +294,55 @@ pub fn run_one_vt(seed: u64, rep: &mut Report) {
     let cell: std::sync::Mutex<Option<(Arc<Trace>, u64, Vec<String>)>> = std::sync::Mutex::new(None);
     let r = vt::run(seed, defer, async {
         let trace = Arc::new(Trace::new());
-        let pl = plan(&mut p, 6, 10);
-        let mut desc = vec![format!("vt senders={} per={:?} term={:?} wrong_type={} defer={defer}", pl.nsenders, pl.per, pl.term, pl.wrong_type)];
-        let spec = Arc::new(ProbeSpec::new(2, Some(format!("c02-{seed:x}")), trace.clone()));
+        // one scenario in eight is 'deep': hundreds of messages queued at once (no yields between sends) while
+        // supervision events (pg notifications) keep arriving, and nothing ends the actor early: every send must be handled
+        let deep = seed % 8 == 3;
+        let mut pl = plan(&mut p, 6, 10);
+        if deep {
+            pl.nsenders = p.range(2, 3);
+            pl.per = (0..pl.nsenders).map(|_| p.range(150, 400)).collect();
+            pl.term = None;
+            pl.wrong_type = false;
+            pl.fail_ok = false;
+        }
+        let mut desc = vec![format!("vt senders={} per={:?} term={:?} wrong_type={} defer={defer} deep={deep}", pl.nsenders, pl.per, pl.term, pl.wrong_type)];
+        let mut spec = ProbeSpec::new(2, Some(format!("c02-{seed:x}")), trace.clone());
+        let churn_group = format!("c02-churn-{seed:x}");
+        if deep {
+            spec.pre_start.push(Step::PgMonitor(churn_group.clone()));
+        }
+        let spec = Arc::new(spec);
         let (actor, handle) = spawn_probe(&spec, None).await.expect("spawn");
         let mut tasks = vec![];
+        let mut churn_actor = None;
+        if deep {
+            let cspec = Arc::new(ProbeSpec::new(3, Some(format!("c02-churner-{seed:x}")), trace.clone()));
+            let (c, ch) = spawn_probe(&cspec, None).await.expect("churner");
+            let (cell, g, mut sp) = (c.get_cell(), churn_group.clone(), p.fork());
+            tasks.push(vt::spawn_h("c02-churn", async move {
+                for _ in 0..sp.range(100, 400) {
+                    ractor::pg::join(g.clone(), vec![cell.clone()]);
+                    tokio::task::yield_now().await;
+                    ractor::pg::leave(g.clone(), vec![cell.clone()]);
+                    for _ in 0..sp.below(3) {
+                        tokio::task::yield_now().await;
+                    }
+                }
+            }));
+            churn_actor = Some((c, ch));
+        }
         for s in 0..pl.nsenders {
             let (tr, a, mut sp, m, fail_ok) = (trace.clone(), actor.clone(), p.fork(), pl.per[s as usize], pl.fail_ok);
             tasks.push(vt::spawn_h(&format!("c02-s{s}"), async move {
                 let mut self_seq = 1_000_000 * (s + 1);
                 for j in 0..m {
-                    for _ in 0..sp.below(3) {
-                        tokio::task::yield_now().await;
+                    if !deep {
+                        for _ in 0..sp.below(3) {
+                            tokio::task::yield_now().await;
+                        }
                     }
-                    let script = gen_script(&mut sp, &mut self_seq, fail_ok);
-                    do_send(&tr, &a, s as u32, j, script, sp.below(3));
+                    let script = if deep { vec![] } else { gen_script(&mut sp, &mut self_seq, fail_ok) };
+                    do_send(&tr, &a, s as u32, j, script, sp.below(4));
                 }
             }));
         }
@@ -337,8 +384,16 @@ pub fn run_one_vt(seed: u64, rep: &mut Report) {
                 trace.online_violation("wrong-type", "traffic after a wrong-typed send was not handled although the actor is running".into());
             }
         }
+        if deep {
+            // let the backlog be worked off before the actor is told to stop
+            vt::quiesce(5).await;
+        }
         actor.stop(None);
         let _ = handle.await;
+        if let Some((c, ch)) = churn_actor {
+            c.stop(None);
+            let _ = ch.await;
+        }
         let exit_ts = crate::trace::stamp();
         vt::quiesce(2).await;
         desc.push(format!("final status {:?}", actor.get_status()));
@@ -380,7 +435,7 @@ pub fn run_one_th(seed: u64, rt: &tokio::runtime::Runtime, rep: &mut Report) {
             let mut self_seq = 1_000_000 * (s + 1);
             for j in 0..m {
                 let script = gen_script(&mut sp, &mut self_seq, fail_ok);
-                do_send(&tr, &a, s as u32, j, script, sp.below(3));
+                do_send(&tr, &a, s as u32, j, script, sp.below(4));
                 if sp.chance(1, 6) {
                     std::thread::yield_now();
                 }
